@@ -518,9 +518,13 @@ func verifJSONFile(checkValues bool) {
 			zzverif.Assert(verifRepr(t, y), "previewed-value-is-representable")
 		}
 	}
-	zzverif.Known("C24-json-empty-list-type-panic", nilElem)
-	zzverif.Known("C24-json-null-not-ok", nullInUnion)
-	zzverif.Known("C24-json-beyond-preview-silent", post == 1 && !verifRepr(t, vals[pre]))
+	// A non-empty array beyond the preview at a list type without element type is one of the
+	// unrepresentable values (on the tree before cbeae12 it crashed the worker instead:
+	// C24-json-empty-list-type-panic, still marked in VerifC24JSONPair).
+	_ = nilElem
+	unreprPost := post == 1 && !verifRepr(t, vals[pre])
+	zzverif.Known("C24-json-null-not-ok", nullInUnion && !unreprPost)
+	zzverif.Known("C24-json-beyond-preview-silent", unreprPost)
 
 	zzverif.Assert(!unrepr || rerr != nil, "unrepresentable-line-is-an-error")
 	if rerr != nil {
